@@ -590,8 +590,8 @@ def target_circuitikz():
         sess.assumptions.append(H.TREE_ASSUMPTION)
         sess.assumptions.append("generate_element_identifiers gives an identifier to every element of the tree (C16 contracts)")
         sess.assumptions.append("iterating over a dictionary visits every key once (CPython); termination of the recursion is not proved")
-        sess.assumptions.append("Connection.__iter__ yields the direct children in order and Connection.contains(x, top_level=True) is identity membership among them "
-                                "(one-line methods over the list of children: `iter(self._elements)`, `any(item is x for item in self._elements)`), as the stand-in connections do")
+        sess.assumptions.append("Connection.__iter__ yields the direct children in order (one-line method `iter(self._elements)`), as the stand-in connections do; "
+                                "the real Connection.contains is executed (its `any(item is x for item in self._elements)` is read as \"x is a direct child\")")
         nested = H.nested_defs(outer)
         for need in ("short_wire", "phase_1_element", "phase_1_series", "phase_1_parallel", "replace_variables", "phase_2"):
             if need not in nested:
